@@ -4,7 +4,8 @@ CONSTANTS Normal = {"n1", "n2"}
           Long = {"nL"}
           Empty = {"nE"}
           Keys = {1}
+          BadKeys = {}
           EncodeOn = TRUE
           D = 5
           E = 5
-INVARIANTS Emit ResultsAgree Refines Confined
+INVARIANTS Emit ResultsAgree Refines Confined BadNeverStored
